@@ -48,7 +48,8 @@ def rand_op(rng, n, par):
             op["lower"] = rng.choice([0.125, 0.25, 0.5, 1.0])
         if rng.random() < 0.6:
             op["upper"] = rng.choice([0.75, 1.0, 2.0, 4.0, 8.0])
-    # malformed: constant with bounds / init and value together / unknown edge
+    # malformed: constant with bounds / init and value together / unknown edge / repeated edge /
+    # empty edge list (= all edges) / upper < lower / falsy zeros that slip through the asserts
     z = rng.random()
     if z < 0.03:
         op["is_constant"] = True
@@ -56,6 +57,25 @@ def rand_op(rng, n, par):
     elif z < 0.05:
         op["init"] = 1.0
         op["value"] = 2.0
+    elif z < 0.08:
+        op["edges"] = sorted(set(op.get("edges", [])) | {n + rng.randrange(2)})  # n, n+1: not in the tree
+    elif z < 0.11:
+        es = list(op.get("edges") or [rng.randrange(n)])
+        es.insert(rng.randrange(len(es) + 1), rng.choice(es))  # the same edge twice
+        op["edges"] = es
+    elif z < 0.13:
+        op["edges"] = []
+    elif z < 0.16:
+        op.pop("is_constant", None)
+        op.pop("value", None)
+        op["lower"] = rng.choice([2.0, 4.0])
+        op["upper"] = rng.choice([0.5, 1.0])
+    elif z < 0.19:
+        # `assert not (init or lower or upper)` / `assert not value` test truthiness: 0.0 passes
+        if op.get("is_constant"):
+            op[rng.choice(["init", "lower", "upper"])] = 0.0
+        elif "init" in op:
+            op["value"] = 0.0
     return op
 
 
@@ -110,7 +130,7 @@ def rules_close(a, b, rtol=1e-12):
 def apply_real(lf, par, edges, op):
     kw = {k: v for k, v in op.items() if k != "edges"}
     if "edges" in op:
-        kw["edges"] = [edges[i] for i in op["edges"]]
+        kw["edges"] = [edges[i] if i < len(edges) else f"no_such_edge_{i}" for i in op["edges"]]
     try:
         with _Quiet():
             lf.set_param_rule(par, **kw)
